@@ -26,6 +26,9 @@ CONFIGS_QUICK = [
     ('block1,close', 'r1'),
     ('block1,block2', 'r1,x'),
     ('block1,dispatch', 'r1,d1'),
+    # calls without a timeout: every wait must still end once its reply has arrived, whoever read it
+    ('block1,block2', 'r1,r2,inf'),
+    ('block1,dispatch', 'r1,inf'),
 ]
 CONFIGS_THOROUGH = CONFIGS_QUICK + [
     ('block1,block2', 'r1,r2,x'),
@@ -40,6 +43,9 @@ CONFIGS_THOROUGH = CONFIGS_QUICK + [
     ('block1,block2,dispatch', 'r1,r2'),
     ('block1,block2,cancel1', 'r1,r2'),
     ('block1,block2,close', 'r2'),
+    ('block1,block2,dispatch', 'r1,r2,inf'),
+    ('block2,dispatch', 'r1,r2,inf'),
+    ('block1,block2', 'r1,r2,x,inf'),
 ]
 LOCAL_ERRORS = ('org.freedesktop.DBus.Error.NoReply', 'org.freedesktop.DBus.Error.Disconnected', 'org.freedesktop.DBus.Error.Timeout')
 ENV = dict(os.environ, ASAN_OPTIONS='detect_leaks=0:abort_on_error=0:exitcode=99', UBSAN_OPTIONS='halt_on_error=1:exitcode=98')
